@@ -740,4 +740,246 @@ theorem evalTop_settles {env : Env} (hS : env.Steady) {fuel : Nat} {s : St} {r :
       rw [← hlk y]; exact hfill k' node' c' hg' ht' hc' hd' y hy hn
     · exact Or.inr h
 
+/-- the named hypothesis of `load_settles` on the load itself: the evaluation `load(key)` performs
+from the API is a clean loading run (see `cleanRun`: no lost insertion, no absorbed failure, no
+`get_cached` probe of a key that is cached before the load returns) -/
+def CleanLoad (env : Env) (fuel : Nat) (s : St) (key : Key) : Prop :=
+  cleanRun env (step env fuel s (.load key)).1 fuel { s with recs := [] } (.load key Prog.ret') = true
+
+/-- **One API load establishes and preserves `Settled`.** Whatever the load returns (a handle, an
+error, a panic, exhausted fuel): after the load and after the reloader has taken the registrations
+it sent, every registered, cached, dynamic asset — the ones cached before and all the ones the load
+cached on the way — holds what re-evaluating its loader returns, and its node holds exactly what that
+re-evaluation reads. No hypothesis on the fuel: a re-evaluation after the load only hits, so it
+returns within the fuel the load had (`hitRun_fuel`). -/
+theorem load_settles {env : Env} (hS : env.Steady) {fuel : Nat} {s : St} {r : RSt} (key : Key)
+    (hout : s.out = []) (hset : Settled env fuel s r.graph)
+    (hclean : CleanLoad env fuel s key)
+    (hfill : NoProbedKeyFilled s (step env fuel s (.load key)).1 r.graph) :
+    Settled env fuel (processMsgs (step env fuel s (.load key)).1 r).1 (processMsgs (step env fuel s (.load key)).1 r).2.graph ∧
+    (processMsgs (step env fuel s (.load key)).1 r).1.out = [] := by
+  unfold CleanLoad at hclean
+  rw [step_load_fst] at hclean hfill ⊢
+  exact evalTop_settles hS _ hout hset hclean hfill
+
+/-! ## Loads without an intervening drain -/
+
+/-- a good registration stays good in every extension of the cache that fills none of the keys the
+asset probed in vain -/
+theorem MsgGood.keep {env : Env} (hS : env.Steady) {fuel : Nat} {s t : St} {k : Key} {D : List Dep}
+    (h : MsgGood env fuel s k D) (hle : s.Le t)
+    (hfill : ∀ y, Dep.asset y ∈ D → s.lookup y = none → t.lookup y = none) : MsgGood env fuel t k D := by
+  obtain ⟨c, hc, m1, m2, m3⟩ := h
+  obtain ⟨r1, r2, r3⟩ := reloadEval_readset hS hS (SameLoaders.refl hS) fuel s t k m1
+    (fun d hd => agreeOn_same_env (fun y e => by
+      subst e
+      cases hy : s.lookup y with
+      | some cy => exact hle y cy hy
+      | none => exact hfill y (by rw [← m3]; exact hd) hy))
+  exact ⟨c, hle k c hc, r1, by rw [r2, m2], by rw [r3, m3]⟩
+
+/-- the state of a cache with its reloader between two drains: every pending registration is good,
+and everything registered and cached is settled unless a registration for it is pending -/
+structure Pending (env : Env) (fuel : Nat) (s : St) (g : Graph) : Prop where
+  good : ∀ m, m ∈ s.out → ∃ k D, m = .addAsset k D ∧ MsgGood env fuel s k D
+  but : SettledBut env fuel s g s.out
+
+theorem Pending.of_settled {env : Env} {fuel : Nat} {s : St} {g : Graph} (hout : s.out = [])
+    (h : Settled env fuel s g) : Pending env fuel s g :=
+  ⟨fun m hm => (by rw [hout] at hm; cases hm), fun k node c hg ht hc hd => Or.inl (h k node c hg ht hc hd)⟩
+
+/-- draining the channel: `Settled` -/
+theorem Pending.drain {env : Env} (hS : env.Steady) {fuel : Nat} {s : St} {r : RSt} (h : Pending env fuel s r.graph) :
+    Settled env fuel (processMsgs s r).1 (processMsgs s r).2.graph := by
+  rw [processMsgs_eq]
+  exact settled_congr hS (s := s) (fun _ => rfl) (settledBut_drain s.out r h.good h.but)
+
+/-- the load fills no key that a pending registration lists while it is absent -/
+def NoPendingKeyFilled (s t : St) : Prop :=
+  ∀ k D, Msg.addAsset k D ∈ s.out → ∀ y, Dep.asset y ∈ D → s.lookup y = none → t.lookup y = none
+
+/-- **A clean top-level evaluation keeps `Pending`** (the channel need not be drained before). -/
+theorem evalTop_pending {env : Env} (hS : env.Steady) {fuel : Nat} {s : St} {g : Graph} (p : Prog)
+    (hp : Pending env fuel s g)
+    (hclean : cleanRun env (evalTop env fuel s p).1 fuel { s with recs := [] } p = true)
+    (hfill : NoProbedKeyFilled s (evalTop env fuel s p).1 g)
+    (hfillM : NoPendingKeyFilled s (evalTop env fuel s p).1) :
+    Pending env fuel (evalTop env fuel s p).1 g := by
+  generalize hfin : (eval env fuel { s with recs := [] } p).1 = fin
+  have hlk : ∀ k, (evalTop env fuel s p).1.lookup k = fin.lookup k := fun k => by rw [← hfin]; rfl
+  have houtE : (evalTop env fuel s p).1.out = fin.out := by rw [← hfin]; rfl
+  have hle0 : St.Le { s with recs := [] } fin := by rw [← hfin]; exact eval_mono env fuel _ p
+  have hle : s.Le fin := (St.Le.of_map_eq (s := s) (t := { s with recs := [] }) rfl).trans hle0
+  have hleE : s.Le (evalTop env fuel s p).1 := fun k c h => (hlk k).trans (hle k c h)
+  have hfin0 : ∀ k, (evalTop env fuel s p).1.lookup k = none → fin.lookup k = none := fun k h => by rw [← hlk k]; exact h
+  have hmsgs := clean_msgs hS fuel hfin0 fuel p { s with recs := [] } (Nat.le_refl _) hclean
+    (by rw [hfin]; exact St.Le.refl fin)
+  obtain ⟨hkeepm, hreg⟩ := clean_registers (evalTop env fuel s p).1 fuel p { s with recs := [] } hclean
+  rw [hfin] at hmsgs hreg hkeepm
+  have hgoodE : ∀ k D, MsgGood env fuel fin k D → MsgGood env fuel (evalTop env fuel s p).1 k D :=
+    fun k D h => h.keep hS (fun k c hc => (hlk k).trans hc) (fun y _ hy => (hlk y).trans hy)
+  constructor
+  · intro m hm
+    rw [houtE] at hm
+    rcases hmsgs m hm with h | ⟨k, D, e, h⟩
+    · obtain ⟨k, D, e, hk⟩ := hp.good m h
+      subst e
+      exact ⟨k, D, rfl, hk.keep hS hleE (hfillM k D h)⟩
+    · exact ⟨k, D, e, hgoodE k D h⟩
+  · intro k node c hg ht hc hd
+    rw [houtE]
+    rw [hlk k] at hc
+    rcases hreg k c hc with h | h
+    · rcases hp.but k node c hg ht h hd with h1 | ⟨D, h1⟩
+      · have hag : ∀ d ∈ reloadDeps env fuel s k, AgreeOn env env s (evalTop env fuel s p).1 d := by
+          intro d hdd
+          refine agreeOn_same_env (fun y e => ?_)
+          subst e
+          cases hy : s.lookup y with
+          | some cy => exact hleE y cy hy
+          | none => exact hfill k node c hg ht h hd y (h1.deps_sub _ hdd) hy
+        exact Or.inl (h1.transfer hS hS (SameLoaders.refl hS) hag (c' := c) (node' := node) rfl rfl).1
+      · exact Or.inr ⟨D, hkeepm _ h1⟩
+    · exact Or.inr h
+
+/-- the named hypotheses on one load of a history -/
+structure LoadOK (env : Env) (fuel : Nat) (s : St) (r : RSt) (key : Key) : Prop where
+  clean : CleanLoad env fuel s key
+  noFill : NoProbedKeyFilled s (step env fuel s (.load key)).1 r.graph
+  noFillPending : NoPendingKeyFilled s (step env fuel s (.load key)).1
+
+theorem load_pending {env : Env} (hS : env.Steady) {fuel : Nat} {s : St} {r : RSt} (key : Key)
+    (hp : Pending env fuel s r.graph) (hok : LoadOK env fuel s r key) :
+    Pending env fuel (step env fuel s (.load key)).1 r.graph := by
+  obtain ⟨h1, h2, h3⟩ := hok
+  unfold CleanLoad at h1
+  rw [step_load_fst] at h1 h2 h3 ⊢
+  exact evalTop_pending hS _ hp h1 h2 h3
+
+/-! ## Histories of loads and `hot_reload`s -/
+
+theorem drain_dead (msgs : List Msg) (r : RSt) : (drain msgs r).dead = r.dead := by
+  unfold drain
+  induction msgs generalizing r with
+  | nil => rfl
+  | cons m ms ih => simp only [List.foldl]; rw [ih]; cases m <;> rfl
+
+theorem drain_static (msgs : List Msg) (r : RSt) : (drain msgs r).static_ = r.static_ := by
+  unfold drain
+  induction msgs generalizing r with
+  | nil => rfl
+  | cons m ms ih => simp only [List.foldl]; rw [ih]; cases m <;> rfl
+
+theorem drain_toReload_nil (msgs : List Msg) (r : RSt) (h : r.toReload = []) : (drain msgs r).toReload = [] := by
+  unfold drain
+  induction msgs generalizing r with
+  | nil => exact h
+  | cons m ms ih =>
+    simp only [List.foldl]
+    apply ih
+    cases m with
+    | addAsset k D => exact h
+    | clear => rfl
+
+theorem topo_nil (g : Graph) (fuel : Nat) : topo g fuel [] = some [] := rfl
+
+theorem runUpdate_idle (env : Env) (fuel : Nat) (s : St) (r : RSt) (h : r.toReload = []) :
+    runUpdate env fuel s r = (s, { r with toReload := [] }) := by
+  unfold runUpdate
+  rw [h, topo_nil]
+  rfl
+
+theorem hotReload_eq (env : Env) (fuel : Nat) (s : St) (r : RSt) (hd : r.dead = false) :
+    hotReload env fuel s r =
+      if (drain s.out r).static_ then ({ s with out := [] }, drain s.out r)
+      else processMsgs (runUpdate env fuel { s with out := [] } (drain s.out r)).1
+             (runUpdate env fuel { s with out := [] } (drain s.out r)).2 := by
+  unfold hotReload
+  simp only [hd, Bool.false_eq_true, if_false]
+  rfl
+
+/-- `hot_reload()` with no event pending: the reloader takes the registrations, nothing else happens -/
+theorem hotReload_idle (env : Env) (fuel : Nat) (s : St) (r : RSt) (hd : r.dead = false) (ht : r.toReload = []) :
+    (hotReload env fuel s r).1 = (processMsgs s r).1 ∧ (hotReload env fuel s r).2.graph = (processMsgs s r).2.graph ∧
+    (hotReload env fuel s r).2.dead = false ∧ (hotReload env fuel s r).2.toReload = [] ∧
+    (hotReload env fuel s r).2.static_ = r.static_ := by
+  have h1 : (drain s.out r).dead = false := (drain_dead _ _).trans hd
+  have h2 : (drain s.out r).toReload = [] := drain_toReload_nil _ _ ht
+  have h3 := drain_static s.out r
+  rw [hotReload_eq env fuel s r hd, processMsgs_eq]
+  cases hst : (drain s.out r).static_ with
+  | true =>
+    simp only [if_true]
+    exact ⟨rfl, rfl, h1, h2, by rw [← h3, hst]⟩
+  | false =>
+    simp only [Bool.false_eq_true, if_false]
+    rw [runUpdate_idle env fuel _ _ h2, processMsgs_eq]
+    exact ⟨rfl, rfl, h1, rfl, by rw [← h3]; rfl⟩
+
+/-- invariant of the histories of loads and `hot_reload`s -/
+structure HInv (env : Env) (fuel : Nat) (x : St × RSt) : Prop where
+  pending : Pending env fuel x.1 x.2.graph
+  live : x.2.dead = false
+  idle : x.2.toReload = []
+
+theorem HInv.init (env : Env) (fuel : Nat) : HInv env fuel ({}, {}) :=
+  ⟨Pending.of_settled rfl (fun _ _ _ h => by cases h), rfl, rfl⟩
+
+/-- a `hot_reload` step: afterwards the channel is drained and everything is settled -/
+theorem HInv.step_hotReload {env : Env} (hS : env.Steady) {fuel : Nat} {x : St × RSt} (h : HInv env fuel x) :
+    Settled env fuel (hstep fuel (env, .hotReload) x).1 (hstep fuel (env, .hotReload) x).2.graph ∧
+    (hstep fuel (env, .hotReload) x).1.out = [] ∧ HInv env fuel (hstep fuel (env, .hotReload) x) := by
+  obtain ⟨s, r⟩ := x
+  obtain ⟨e1, e2, e3, e4, _⟩ := hotReload_idle env fuel s r h.live h.idle
+  have hset : Settled env fuel (hotReload env fuel s r).1 (hotReload env fuel s r).2.graph := by
+    rw [e1, e2]; exact h.pending.drain hS
+  have hout : (hotReload env fuel s r).1.out = [] := by rw [e1]; rfl
+  exact ⟨hset, hout, ⟨Pending.of_settled hout hset, e3, e4⟩⟩
+
+theorem HInv.step_load {env : Env} (hS : env.Steady) {fuel : Nat} {s : St} {r : RSt} (h : HInv env fuel (s, r))
+    {key : Key} (hok : LoadOK env fuel s r key) : HInv env fuel (hstep fuel (env, .api (.load key)) (s, r)) :=
+  ⟨load_pending hS key h.pending hok, h.live, h.idle⟩
+
+/-- The histories of statement 2: `load`s and `hot_reload`s under one environment, every load
+satisfying the named hypotheses `LoadOK` in the state it starts from. -/
+inductive LoadHist (env : Env) (fuel : Nat) : List (Env × HOp) → St × RSt → Prop
+  | nil (x : St × RSt) : LoadHist env fuel [] x
+  | load (key : Key) (rest : List (Env × HOp)) (s : St) (r : RSt) :
+      LoadOK env fuel s r key → LoadHist env fuel rest (hstep fuel (env, .api (.load key)) (s, r)) →
+      LoadHist env fuel ((env, .api (.load key)) :: rest) (s, r)
+  | hotReload (rest : List (Env × HOp)) (x : St × RSt) :
+      LoadHist env fuel rest (hstep fuel (env, .hotReload) x) → LoadHist env fuel ((env, .hotReload) :: rest) x
+
+/-- **Histories of loads and `hot_reload`s**: the invariant holds at the end, and after every
+`hot_reload` step of the history the channel is drained and everything registered and cached is settled. -/
+theorem loads_settle {env : Env} (hS : env.Steady) {fuel : Nat} {h : List (Env × HOp)} {x : St × RSt}
+    (hh : LoadHist env fuel h x) (hx : HInv env fuel x) :
+    HInv env fuel (runH fuel h x) ∧
+    ∀ h1 h2, h = h1 ++ (env, .hotReload) :: h2 →
+      Settled env fuel (runH fuel (h1 ++ [(env, .hotReload)]) x).1 (runH fuel (h1 ++ [(env, .hotReload)]) x).2.graph ∧
+      (runH fuel (h1 ++ [(env, .hotReload)]) x).1.out = [] := by
+  induction hh with
+  | nil x => exact ⟨hx, fun h1 h2 e => by cases h1 <;> cases e⟩
+  | load key rest s r hok _ ih =>
+    obtain ⟨i1, i2⟩ := ih (hx.step_load hS hok)
+    refine ⟨i1, fun h1 h2 e => ?_⟩
+    cases h1 with
+    | nil => simp only [List.nil_append, List.cons.injEq, Prod.mk.injEq] at e; cases e.1.2
+    | cons a h1' =>
+      simp only [List.cons_append, List.cons.injEq] at e
+      obtain ⟨ea, er⟩ := e
+      subst ea
+      exact i2 h1' h2 er
+  | hotReload rest x _ ih =>
+    obtain ⟨j1, j2, j3⟩ := hx.step_hotReload hS
+    obtain ⟨i1, i2⟩ := ih j3
+    refine ⟨i1, fun h1 h2 e => ?_⟩
+    cases h1 with
+    | nil => exact ⟨j1, j2⟩
+    | cons a h1' =>
+      simp only [List.cons_append, List.cons.injEq] at e
+      obtain ⟨ea, er⟩ := e
+      subst ea
+      exact i2 h1' h2 er
+
 end AmVerif.Model
